@@ -82,7 +82,8 @@ P = {
                   "literal rule set; header values ASCII (strings.TrimSpace modelled for ASCII white space only). What a trusted peer's "
                   "headers become at the upstream (composition of X-Forwarded-*/Forwarded, all field lines since fix: f228b67) is modelled "
                   "and compared but not demanded by the property predicate (the statement is silent); the query of a trusted "
-                  "X-Forwarded-Uri is the one sent (fix: f446e16), the predicate accepts the re-encoded reading as well. NOT covered: the Envoy ext_authz entry "
+                  "X-Forwarded-Uri is the one sent (fix: f446e16), the predicate accepts the re-encoded reading as well; a value url.Parse "
+                  "refuses is used as received, cut at the first '?' (fix: d3f6cd7), the predicate also accepts ignoring it. NOT covered: the Envoy ext_authz entry "
                   "point (grpcv3/request_context.go takes the client list from x-forwarded-for metadata with no trust test; the statement "
                   "names decision and proxy mode; see C13), configuration by environment variables (C20), TLS/HTTP/2 on real sockets, "
                   "non-ASCII header values. C09-F1 is fixed (fix: e501d3a = fixes/C09-F1.diff); the evaluator runs the repaired variant of the "
